@@ -376,6 +376,11 @@ def run(ctx):
         seed_ = rng.getrandbits(32) if i % 2 else None
         judge(ctx, t, v, seed_)
         ctx.remember(judge, ctx, t, v, seed_)
+    # collections of 9, 10, 11 ... hundreds of elements, wide combs, deep nestings, long strings
+    for k, (label, t, v) in enumerate(G.large_values(rng, ctx.quick)):
+        if ctx.mine(k):
+            ctx.count('large_values')
+            judge(ctx, t, v, k if k % 2 else None)
     # recorded arguments and storage parts of the mainnet corpus under their real annotated types (records with named fields,
     # entrypoint unions, maps of records)
     from rv.gen import corpus as C
